@@ -226,6 +226,7 @@ func Handle(t e1.Task) (*e1.Result, map[uint64]struct{}) {
 	if vsched.MaxTouches <= 0 {
 		vsched.MaxTouches = 12
 	}
+	vsched.MaxTouchesPerSite = 2
 	if p.Mode == "seq" {
 		return seqSearch(t, ops, inputs, bitsIn, start)
 	}
@@ -569,9 +570,9 @@ func Run(ctx *common.Ctx) int {
 		return 2
 	}
 	ops := Ops()
-	maxTouches := 12
+	maxTouches := 16
 	if !quick {
-		maxTouches = 24
+		maxTouches = 32
 	}
 	// race pass first: it is the deciding step for unsynchronised accesses and must never be cut by the deadline
 	raceRuns := 0
